@@ -54,26 +54,28 @@ func (s *State) clone() *State {
 }
 
 type Engine struct {
-	w           *World
-	sc          *Script
-	structSorts map[string]string
-	sortNames   map[string]bool
-	initHeaps   map[string]string
-	heapSorts   map[string]string
-	typeTags    map[string]int
-	obls        []*Obligation
-	occ         map[string]int
-	sweep       bool // zero-annotation safety mode
-	epochs      int
-	topFn       *ssa.Function
-	notes       []string // abstractions applied (for evidence)
-	noteSet     map[string]bool
-	outside     string // non-empty: function left the supported subset
-	dry         int    // >0 while inside a dry run (no obligations recorded)
-	specUF      map[string]bool
-	inlineStack []*ssa.Function
-	storeLog    *[]storeRec
-	ghostInit   bool
+	w            *World
+	sc           *Script
+	structSorts  map[string]string
+	sortNames    map[string]bool
+	initHeaps    map[string]string
+	heapSorts    map[string]string
+	typeTags     map[string]int
+	obls         []*Obligation
+	occ          map[string]int
+	sweep        bool // zero-annotation safety mode
+	epochs       int
+	topFn        *ssa.Function
+	notes        []string // abstractions applied (for evidence)
+	noteSet      map[string]bool
+	outside      string // non-empty: function left the supported subset
+	dry          int    // >0 while inside a dry run (no obligations recorded)
+	specUF       map[string]bool
+	inlineStack  []*ssa.Function
+	storeLog     *[]storeRec
+	ghostInit    bool
+	sentinelDone map[string]bool
+	factDone     map[string]bool
 }
 
 type storeRec struct {
@@ -131,8 +133,12 @@ func (e *Engine) addObl(fn *ssa.Function, kind, text string, pos token.Pos, reac
 		o.Where = fmt.Sprintf("%s:%d", strings.TrimPrefix(p.Filename, e.w.RepoDir+"/"), p.Line)
 	}
 	e.obls = append(e.obls, o)
-	// assert-then-assume
-	e.sc.assert(implies(reach, formula))
+	// assert-then-assume for mid-path obligations only (end-of-path obligations are independent of each other)
+	switch kind {
+	case "post", "frame", "inv.preserved", "dec":
+	default:
+		e.sc.assert(implies(reach, formula))
+	}
 }
 
 func (e *Engine) assume(st *State, formula string) {
@@ -395,4 +401,40 @@ func sortedObls(obls []*Obligation) []*Obligation {
 	out := append([]*Obligation(nil), obls...)
 	sort.SliceStable(out, func(i, j int) bool { return out[i].Name < out[j].Name })
 	return out
+}
+
+var stdSentinels = map[string]bool{
+	"G_io.EOF": true, "G_io.ErrUnexpectedEOF": true, "G_io/fs.ErrNotExist": true, "G_io/fs.ErrExist": true, "G_io/fs.ErrPermission": true,
+	"G_io/fs.ErrInvalid": true, "G_io/fs.ErrClosed": true, "G_io/fs.SkipDir": true, "G_io/fs.SkipAll": true, "G_os.ErrNotExist": true,
+	"G_path/filepath.SkipDir": true, "G_path/filepath.SkipAll": true,
+}
+
+// sentinelFacts: package-level `var ErrX = errors.New(...)` that is never reassigned is non-nil, distinct from
+// every other sentinel, and errors.Is(ErrX, t) holds exactly for t == ErrX.
+func (e *Engine) sentinelFacts(heapName, term string) {
+	if e.sentinelDone == nil {
+		e.sentinelDone = map[string]bool{}
+	}
+	if e.sentinelDone[term] {
+		return
+	}
+	if !stdSentinels[heapName] && !e.w.isRepoSentinel(heapName) {
+		return
+	}
+	e.sentinelDone[term] = true
+	id, ok := e.w.sentinelIDs[heapName]
+	if !ok {
+		if e.w.sentinelIDs == nil {
+			e.w.sentinelIDs = map[string]int{}
+		}
+		id = len(e.w.sentinelIDs) + 1
+		e.w.sentinelIDs[heapName] = id
+	}
+	e.sc.declareFun("sentinelId", []string{"Int"}, "Int")
+	if a0, ok := e.initHeaps[fmt.Sprintf("%s@%d", allocHeap, 0)]; ok {
+		// the sentinel was allocated during package initialisation, before the function under verification was entered
+		e.sc.assert("(<= " + term + " " + a0 + ")")
+	}
+	e.sc.assert(fmt.Sprintf("(and (> %s 0) (= (sentinelId %s) %d) (forall ((t Int)) (! (= (errIs %s t) (= t %s)) :pattern ((errIs %s t)))))", term, term, id, term, term, term))
+	e.w.Trusted["sentinel error variable is never reassigned: "+strings.TrimPrefix(heapName, "G_")] = true
 }
